@@ -1196,14 +1196,18 @@ int tls13_process_certificate_list(const uint8_t *cert_list, size_t cert_list_le
 		size_t exts_len;
 		const uint8_t *cert;
 		size_t cert_len;
+		size_t need = *certs_len;
 
 		if (tls_uint24array_from_bytes(&cert_data, &cert_data_len, &cert_list, &cert_list_len) != 1
 			|| tls_uint16array_from_bytes(&exts, &exts_len, &cert_list, &cert_list_len) != 1) {
 			error_print();
 			return -1;
 		}
+		// the caller's buffer is the connection's certificate store of TLS_MAX_CERTIFICATES_SIZE bytes
 		if (x509_cert_from_der(&cert, &cert_len, &cert_data, &cert_data_len) != 1
 			|| asn1_length_is_zero(cert_data_len) != 1
+			|| x509_cert_to_der(cert, cert_len, NULL, &need) != 1
+			|| need > TLS_MAX_CERTIFICATES_SIZE
 			|| x509_cert_to_der(cert, cert_len, &certs, certs_len) != 1) {
 			error_print();
 			return -1;
